@@ -146,6 +146,21 @@ def entry_cell(title, addr):
     return Cell(title, m.group(1), m.group(2))
 
 
+def file_executor(text, workdir, tag, name='model.py', prefill=None):
+    """the class text written to <workdir>/<tag>/<name> (the SAME file name for every tag: a loader that remembers modules by file name
+    mixes them up) and loaded through Executor.set_executed_class(class_file=...). prefill: text the path holds before (a longer class
+    of an earlier translation). -> Outcome(Executor)"""
+    d = os.path.join(workdir, tag)
+    os.makedirs(d, exist_ok=True)
+    path = os.path.join(d, name)
+    if prefill is not None:
+        with open(path, 'w', encoding='utf-8', newline='') as f:
+            f.write(prefill)
+    with open(path, 'w', encoding='utf-8', newline='') as f:
+        f.write(text)
+    return guarded(lambda: Executor().set_executed_class(class_file=path), 'load_file'), path
+
+
 def ncell(sheet_idx, row, col, value=None):
     """numeric addressing, 1-based row/col of the spec -> 0-based Cell"""
     return Cell(sheet_idx, col - 1, row - 1, value)
